@@ -152,12 +152,23 @@ def run(ctx):
                     continue
                 rv = b.expr_rvalue(w["rv"])
                 fpw = format_parts(b, rv)
+                if not fpw and w["rv"]["k"] == "use" and w["rv"]["op"].get("k") in ("move", "copy") and not w["rv"]["op"]["place"]["p"]:
+                    from engine.analyses import built_string_parts
+                    fpw = built_string_parts(b, w["rv"]["op"]["place"]["l"])      # the same concatenation assembled with push_str
                 if fpw and len(fpw) == 3 and all(x[0] == "val" for x in fpw):
                     a_, m_, z_ = (peel_conv(x[1]) for x in fpw)
                     if a_.k == "call" and acc.get(a_.a[0]) == "preceding" and z_.k == "call" and acc.get(z_.a[0]) == "trailing" \
                             and contains_call(m_, lambda n: n.endswith("Rank::to_string")) or (fpw and contains_call(fpw[1][1], lambda n: "IterMut" in n)):
                         wrapped = True
                         wbb = w["bb"]
+            if not wrapped:
+                # in place: item.insert_str(0, preceding); item.push_str(trailing) on the item reference of the same loop
+                from engine.analyses import inplace_wraps
+                for (l_, pre_, post_, ibb_, abb_) in inplace_wraps(b):
+                    a_, z_ = peel_conv(pre_), peel_conv(post_)
+                    if a_.k == "call" and acc.get(a_.a[0]) == "preceding" and z_.k == "call" and acc.get(z_.a[0]) == "trailing":
+                        wrapped = True
+                        wbb = ibb_
             if wrapped and b.dominates(p.outer_bb, wbb):
                 r2.ok("wrap@%s" % short, "every item := preceding ++ item ++ trailing after the push")
             else:
